@@ -88,24 +88,35 @@ def run(ck: Checker):
     ck.ob('C15-2', init, stores[0].ast if stores else init.node, not probs, '; '.join(sorted(set(probs))) if probs else f'on all {len(g.at(stores[0].id))} path condition(s) reaching `self.tb = …` the text is a str given by the caller, formatted from a traceback, or the forwarded remote text; self.exc is the original object')
     # ------------------------------------------------------------------ C15-3
     fwd = [n for n in cfg.nodes if isinstance(n.ast, ast.Assign) and isinstance(n.ast.value, ast.Call) and dotted(n.ast.value.func) == 'get_remote_traceback' and n.ast.value.args and is_name(n.ast.value.args[0], ps[1])]
-    tests = [n for n in cfg.nodes if n.kind == 'test' and isinstance(n.ast, ast.Call) and dotted(n.ast.func) == 'is_remote_exception']
+    def _polar(t_):
+        neg_ = False
+        while isinstance(t_, ast.UnaryOp) and isinstance(t_.op, ast.Not):
+            t_, neg_ = t_.operand, not neg_
+        return t_, neg_
+
+    tests = [n for n in cfg.nodes if n.kind == 'test' and isinstance(_polar(n.ast)[0], ast.Call) and dotted(_polar(n.ast)[0].func) == 'is_remote_exception']
     tbt = [n for n in cfg.nodes if n.kind == 'test' and '__traceback__' in norm_text(n.ast)]
     probs = []
     if not fwd or not tests:
         probs.append('the remote traceback of an already-remote exception is not reused')
     else:
+        rem_T = 'F' if _polar(tests[0].ast)[1] else 'T'  # the label on which is_remote_exception(exc) holds
+        rem_F = 'T' if rem_T == 'F' else 'F'
         # reached exactly on: no own traceback AND is_remote_exception true
-        if fwd[0].id not in reachable(cfg, [e.dst for e in cfg.succ[tests[0].id] if e.kind == 'T'], avoid={tests[0].id}):
+        if fwd[0].id not in reachable(cfg, [e.dst for e in cfg.succ[tests[0].id] if e.kind == rem_T], avoid={tests[0].id}):
             probs.append('the reuse is not on the branch where is_remote_exception(exc) holds')
         if tbt:
-            own = 'T' if isinstance(tbt[0].ast, ast.Compare) and isinstance(tbt[0].ast.ops[0], ast.IsNot) else 'F'
+            tb_in, tb_neg = _polar(tbt[0].ast)
+            own = 'T' if isinstance(tb_in, ast.Compare) and isinstance(tb_in.ops[0], ast.IsNot) else 'F'
+            if tb_neg:
+                own = 'F' if own == 'T' else 'T'
             if fwd[0].id in reachable(cfg, [e.dst for e in cfg.succ[tbt[0].id] if e.kind == own], avoid={tbt[0].id}):
                 probs.append('an exception that has its own fresh traceback would get the stale remote text')
             fmt = [n for n in cfg.nodes if isinstance(n.ast, ast.Assign) and 'format_exception' in norm_text(n.ast.value) and n.id in reachable(cfg, [e.dst for e in cfg.succ[tbt[0].id] if e.kind == own], avoid={tbt[0].id})]
             if not fmt:
                 probs.append('an exception with its own traceback is not formatted from it')
         # not remote and no traceback: must raise (nothing to report)
-        p = path_avoiding(cfg, [e for e in cfg.succ[tests[0].id] if e.kind == 'F'], {s.id for s in stores}, avoid={tests[0].id})
+        p = path_avoiding(cfg, [e for e in cfg.succ[tests[0].id] if e.kind == rem_F], {s.id for s in stores}, avoid={tests[0].id})
         if p is not None:
             probs.append('an exception with no traceback information at all is accepted silently')
     # the text is formatted with the chain: the remote traceback of the previous hop is the __cause__ of the exception at
